@@ -81,6 +81,19 @@ fn grid(opts: &[Tf], max_len: usize) -> Vec<Vec<Tf>> {
     all
 }
 
+/// full-width topics that differ from each other in their first byte only, in their last byte only, or in both
+fn wide_topic(first: u8, last: u8) -> String {
+    let mut t = [0x5au8; 32];
+    t[0] = first;
+    t[31] = last;
+    hx(&t)
+}
+
+fn wide_topic_filters() -> Vec<Vec<Tf>> {
+    let opts = vec![Tf::Null, Tf::One(wide_topic(0x80, 1)), Tf::One(wide_topic(0x70, 1)), Tf::One(wide_topic(0x80, 2)), Tf::Any(vec![wide_topic(0x70, 1), wide_topic(0x80, 2)]), Tf::One(topic(1))];
+    grid(&opts, 2).into_iter().filter(|f| f.iter().any(|t| !matches!(t, Tf::Null))).collect()
+}
+
 fn topic_filters(max_len: usize) -> Vec<Vec<Tf>> {
     // lists that can fail (a single alternative; one alternative that no log carries) as well as one that
     // always matches: a later list position must not override an earlier failed one
@@ -90,6 +103,7 @@ fn topic_filters(max_len: usize) -> Vec<Vec<Tf>> {
     let mut with_null = opts.clone();
     with_null.push(Tf::AnyWithNull(vec![None, Some(topic(1))]));
     all.extend(grid(&with_null, 2.min(max_len)).into_iter().filter(|f| f.iter().any(|t| matches!(t, Tf::AnyWithNull(_)))));
+    all.extend(wide_topic_filters());
     all
 }
 
@@ -260,8 +274,24 @@ pub fn scenarios(tier: &str) -> Vec<Scenario> {
         TxSpec::Call { pk: 2, tgt: r_tgt, data: vec![], len: DEFAULT_LEN },
         lg(s2.clone(), 2, 1, 1, [2, 0, 0, 0]),
     ]));
+    // T emits LOG2 with two full-width topics taken from its call data: topics that agree in all but their
+    // first or all but their last byte
+    let t_rt: Vec<u8> = vec![0x60, 0x20, 0x35, 0x5f, 0x35, 0x5f, 0x5f, 0xa2, 0x00];
+    let t_tgt = Tgt::Created { pk: 5, nonce: 0 };
+    let wt = |a: (u8, u8), b: (u8, u8)| -> Vec<u8> {
+        let mut d = hex::decode(wide_topic(a.0, a.1).trim_start_matches("0x")).unwrap();
+        d.extend(hex::decode(wide_topic(b.0, b.1).trim_start_matches("0x")).unwrap());
+        d
+    };
+    long.extend(block(vec![TxSpec::Deploy { pk: 5, code: crate::asm::initcode(&t_rt), len: DEFAULT_LEN }]));
+    long.extend(block(vec![
+        TxSpec::Call { pk: 0, tgt: t_tgt.clone(), data: wt((0x80, 1), (0x80, 2)), len: DEFAULT_LEN },
+        TxSpec::Call { pk: 0, tgt: t_tgt.clone(), data: wt((0x70, 1), (0x80, 2)), len: DEFAULT_LEN },
+        TxSpec::Call { pk: 2, tgt: t_tgt.clone(), data: wt((0x80, 2), (0x70, 1)), len: DEFAULT_LEN },
+        TxSpec::Call { pk: 2, tgt: t_tgt, data: wt((0x80, 1), (0x80, 1)), len: DEFAULT_LEN },
+    ]));
     long.extend(alpha[1].steps.clone());
-    long.push(Step::Mine(3));
+    long.push(Step::Mine(1));
     long.extend(alpha[2].steps.clone());
     long.push(Step::Commit);
     long.extend(alpha[0].steps.clone());
@@ -282,7 +312,7 @@ pub fn scenarios(tier: &str) -> Vec<Scenario> {
         Scenario {
             name: "logs-grid-full-topics".into(),
             opts,
-            starts: vec![("ten blocks: 12 logging transactions in one, a proxied log and a reverted log in another, logs in three more, partly committed".into(), long)],
+            starts: vec![("ten blocks: 12 logging transactions in one, a proxied log and a reverted log in another, full-width topics in a third, logs in three more, partly committed".into(), long)],
             alphabet: alpha,
             bounds: Bounds { depth: if thorough { 2 } else { 1 }, dev: vec![1, 1], dev_total: 2 },
             weight: 1.0,
